@@ -197,6 +197,11 @@ def _f_vec(fam, p, z):
         if any((zi != zi) or abs(zi) > t for zi in z):
             return float("inf")
         return float(sum((i + 1) * (z[i] - 0.1 * (i + 1)) ** 2 for i in range(n)))
+    if fam == "jackpot":           # an unbounded reward: -inf on a target box (log of a distance that reaches 0), sphere elsewhere
+        t = p.get("thr", 1.0)
+        if all((zi == zi) and abs(zi) <= t for zi in z):
+            return float("-inf")
+        return float(sum((i + 1) * z[i] ** 2 if z[i] == z[i] else float("nan") for i in range(n)))
     if fam == "hinge":             # tolerance band: exactly 0 on a whole region, coordinate-weighted outside
         t = p.get("tol", 1.0)
         return float(sum((i + 1) * max(0.0, abs(z[i]) - t) if z[i] == z[i] else float("nan") for i in range(n)))
@@ -226,7 +231,7 @@ def _f_perm(fam, p, perm):
     raise ValueError(fam)
 
 
-VEC_FAMS = ("sphere", "abs", "linear", "rastrigin", "hash", "plateau", "hinge", "penalty")
+VEC_FAMS = ("sphere", "abs", "linear", "rastrigin", "hash", "plateau", "hinge", "penalty", "jackpot")
 PERM_FAMS = ("sq", "assign", "tour")
 
 
